@@ -1,6 +1,26 @@
 #pragma once
+#include "task_group_context.h"
 #include "tbbstub.h"
 namespace tbb {
+template <typename Index, typename Function>
+void parallel_for(Index first, Index last, const Function &f, task_group_context &context)
+{
+  if (!(first < last))
+    return;
+  struct Ctx
+  {
+    const Function *f;
+    Index first;
+  } c = {&f, first};
+  unsigned long long count = (unsigned long long)(last - first);
+  tbbstub::run_parallel(
+      count,
+      [](void *p, unsigned long long i) {
+        Ctx *cc = (Ctx *)p;
+        (*cc->f)((Index)(cc->first + (Index)i));
+      },
+      &c, context.stub());
+}
 template <typename Index, typename Function>
 void parallel_for(Index first, Index last, const Function &f)
 {
